@@ -1642,7 +1642,7 @@ func main() {
 	// ---- histories: results of Marshal / MarshalJSON kept across later operations
 	nhist := 60
 	if thorough {
-		nhist = 1500
+		nhist = 800
 	}
 	for i := 0; i < nhist; i++ {
 		d := descs[r.Intn(len(descs))]
